@@ -16,21 +16,21 @@ static std::vector<std::string> scenario_args(int sc, const std::string& wd) {
     auto cfg = wd + "/parent.cfg";
     switch (sc) {
     case 0: a.insert(a.end(), {"--gui", "false", "-o", wd + "/out.h5"}); break;                                     // defaults only
-    case 1: a.insert(a.end(), {"--gui", "false", "-o", wd + "/out.h5", "-I", "1.25e-3", "2.5e-3", "6.25e-4", "-f", "8500.5", "-N", "777", "-V", "1234567", "-F", "2712345.5", "-H", "184", "-E", "1.2345678e9",
+    case 1: a.insert(a.end(), {"--gui", "false", "-o", wd + "/out.h5", "-I", "1.2345678e-3", "2.5e-3", "6.7891234e-4", "-f", "8500.5", "-N", "777", "-V", "1234567", "-F", "2712345.5", "-H", "184", "-E", "1.2345678e9",
                                "-e", "4.7123e-4", "-R", "5.559", "-G", "0.032", "-d", "0.01", "-n", "37", "-T", "2.25", "-s", "64", "-P", "11.5", "-p", "3.5", "--RoundPadding", "false", "--PhaseSpaceShiftX", "1.5",
                                "--PhaseSpaceShiftY", "-2.5", "--RenormalizeCharge", "5", "--FPType", "1", "--FPTrack", "2", "--derivation", "3", "--InterpolationPoints", "3", "--alpha1", "1.5e-4", "--alpha2", "-2.5e-5",
                                "--SavePhaseSpace", "3", "--CutoffFreq", "2.5e10", "--WallConductivity", "3.5e7", "--WallSusceptibility", "0.25", "--CollimatorRadius", "0.004", "--UseCSR", "false", "--LinearRF", "false",
                                "--RFAmplitudeSpread", "1e-4", "--RFPhaseSpread", "0.25", "--RFPhaseModAmplitude", "1.5", "--RFPhaseModFrequency", "9000", "--InitialDistZoom", "1.25", "--StepsPerRevolution", "0",
                                "--verbose", "true"}); break;
-    case 2: { std::ofstream f(cfg); f << "BunchCurrent=1.25e-3\nBunchCurrent=2.5e-3\nalpha0=3.3e-3\nStepsPerTs=640\nAcceleratingVoltage=1.1e6\nGridSize=32\nrotations=0.5\noutstep=10\nVacuumGap=-0.02\nDampingTime=0.02\n";
+    case 2: { std::ofstream f(cfg); f << "BunchCurrent=1.2345678e-3\nBunchCurrent=2.5e-3\nalpha0=3.3e-3\nStepsPerTs=640\nAcceleratingVoltage=1.1e6\nGridSize=32\nrotations=0.5\noutstep=10\nVacuumGap=-0.02\nDampingTime=0.02\n";
               a.insert(a.end(), {"--gui", "false", "-c", cfg, "-o", wd + "/out.h5"}); } break;                       // canonical names in a parent config, alpha0 (no f_s)
-    case 3: { std::ofstream f(cfg); f << "steps=555\nRFVoltage=1.5e6\nSyncFreq=7100\nBunchCurrent=2e-3\nGridSize=32\n";
+    case 3: { std::ofstream f(cfg); f << "steps=555\nRFVoltage=1.5e6\nSyncFreq=7100\nBunchCurrent=2.3456789e-3\nGridSize=32\n";
               a.insert(a.end(), {"--gui", "false", "-c", cfg, "-o", wd + "/out.h5"}); } break;                       // legacy aliases in a parent config
     case 5: { std::ofstream f(cfg); f << "steps=2000\nStepsPerTs=500\nRFVoltage=1.5e6\nAcceleratingVoltage=8e5\nSyncFreq=7100\nSynchrotronFrequency=6500\nGridSize=32\n";
               a.insert(a.end(), {"--gui", "false", "-c", cfg, "-o", wd + "/out.h5"}); } break;                       // half-migrated parent config: legacy and current name of the same quantity, different values
     case 6: { std::ofstream f(cfg); f << "steps=2000\nRFVoltage=1.5e6\nSyncFreq=7100\nGridSize=32\n";
               a.insert(a.end(), {"--gui", "false", "-c", cfg, "-o", wd + "/out.h5", "-N", "500", "-V", "8e5", "-f", "6500"}); } break;   // legacy names in the parent config, current names on the command line
-    case 4: a.insert(a.end(), {"--gui", "false", "-o", wd + "/out.h5", "--alpha0", "5.5e-3", "-I", "3e-3"}); break; // alpha0 on the command line, one bunch
+    case 4: a.insert(a.end(), {"--gui", "false", "-o", wd + "/out.h5", "--alpha0", "5.5e-3", "-I", "3.4567891e-3"}); break; // alpha0 on the command line, one bunch
     }
     return a;
 }
